@@ -91,7 +91,7 @@ def run_config(ctx, config):
                     want = ("/", At, Bt)
                 else:
                     want = S.new((op, At, Bt), S.unit(a_, tag=q.path), tag=q.path)
-                opforms.body_form(ctx, "single-unit", inst, U, imp, fn, want)
+                opforms.body_form(ctx, "single-unit", inst, U, imp, fn, want, record=q)
     base = config in ("f64-all", "dec-all")   # the no_std configurations contain the catalogue only (Temperature)
     ctx.floor("%s: types without reference unit" % config, n_noref, 2 if base else 1)
     ctx.floor("%s: single-unit types" % config, n_single, 1 if base else 0)
